@@ -765,7 +765,7 @@ mod matching {
             // To calculate the upper bound of results we use n! where n is the
             // number of nodes in graph 1. n! values fit into a 64-bit usize up
             // to n = 20, so we don't estimate an upper limit for n > 20.
-            let n = self.st.0.graph.node_count();
+            let n = self.st.1.graph.node_count();
 
             // We hardcode n! values into an array that accounts for architectures
             // with smaller usizes to get our upper bound.
@@ -796,7 +796,7 @@ mod matching {
             .map(|n| usize::try_from(*n).ok())
             .collect();
 
-            if n > upper_bounds.len() {
+            if n >= upper_bounds.len() {
                 return (0, None);
             }
 
